@@ -1,6 +1,6 @@
 (* C11 - Values compare in SQLite's order.  Property theorems only; proofs
    are in Proofs/. *)
-From SQ Require Import Model.Base Model.Record Model.Float Model.Cmp Spec.Order Proofs.CmpP.
+From SQ Require Import Model.Base Model.Record Model.Float Model.Cmp Spec.Order Proofs.CmpP Proofs.IntRealP.
 
 (* SQLite's order (Spec/Order.v: NULL < numbers by exact value < text by
    collation < blobs bytewise) is a total preorder on storable values *)
@@ -17,35 +17,41 @@ Theorem C11_trans : forall c x y z, storable x -> storable y -> storable z ->
 Proof. exact s_cmp_trans. Qed.
 Print Assumptions C11_trans.
 
-(* compare() of db/cmp.go computes that order.  PARTIAL: proved for every pair
-   of storable values except integer-against-real pairs; for those the model
-   (exact comparison through truncation, as in the repaired cmpIntFloat) is
-   tied to SQLite by the exhaustive grid of the check, and C11_intreal_grid
-   below evaluates it on the boundary values inside Coq. *)
-Theorem C11_compare_spec_partial : forall c a b, storable a -> storable b -> mixed a b = false ->
+(* compare() of db/cmp.go computes that order on every pair of storable values
+   (int64, every non-NaN binary64 bit pattern, text, blobs, NULL), the
+   integer-against-real case included: truncating the real, comparing the
+   integers and breaking the tie through float64(i) is the exact comparison of
+   the integer with the real's dyadic value (Proofs/IntRealP.v) *)
+Theorem C11_compare_spec : forall c a b, storable a -> storable b ->
   compare a b c = of_cmp (s_cmp c a b).
-Proof. exact compare_spec_unmixed. Qed.
-Print Assumptions C11_compare_spec_partial.
+Proof. exact compare_spec. Qed.
+Print Assumptions C11_compare_spec.
+
+Theorem C11_int_real : forall i r, - 2 ^ 63 <= i < 2 ^ 63 -> 0 <= r < 2 ^ 64 -> is_nan r = false ->
+  cmp_int_float i r = of_cmp (exact_cmp i r).
+Proof. exact cmp_int_float_spec. Qed.
+Print Assumptions C11_int_real.
 
 (* Equals and Search are the lexicographic liftings of the order to keys, for
    ascending and descending columns and per-column collations: [kcmp] places
    an index entry before / at / after the key *)
-Theorem C11_equals : forall k r, agrees k r ->
+Theorem C11_equals : forall k r, Forall (fun kc => storable (kv kc)) k -> Forall storable r ->
   equals k r = match kcmp k r with Eq => true | _ => false end.
-Proof. exact equals_kcmp. Qed.
+Proof. exact (fun k r Hk Hr => equals_kcmp k r (agrees_storable k r Hk Hr)). Qed.
 Print Assumptions C11_equals.
 
-Theorem C11_search : forall k r, agrees k r ->
+Theorem C11_search : forall k r, Forall (fun kc => storable (kv kc)) k -> Forall storable r ->
   search k r = match kcmp k r with Lt => false | _ => true end.
-Proof. exact search_kcmp. Qed.
+Proof. exact (fun k r Hk Hr => search_kcmp k r (agrees_storable k r Hk Hr)). Qed.
 Print Assumptions C11_search.
 
-Theorem C11_equals_search : forall k r, agrees k r -> equals k r = true -> search k r = true.
-Proof. exact equals_search. Qed.
+Theorem C11_equals_search : forall k r, Forall (fun kc => storable (kv kc)) k -> Forall storable r ->
+  equals k r = true -> search k r = true.
+Proof. exact (fun k r Hk Hr => equals_search k r (agrees_storable k r Hk Hr)). Qed.
 Print Assumptions C11_equals_search.
 
-(* a test, not a proof, of the integer/real case: the model agrees with the
-   specification on the boundary grid (2^53 +- 1, +-2^63, +-0, +-Inf, subnormal) *)
+(* the boundary grid of the integer/real case evaluated inside Coq (now a corollary of
+   C11_compare_spec; kept as a regression example (2^53 +- 1, +-2^63, +-0, +-Inf, subnormal) *)
 Definition ir_ints : list Z :=
   [0; 1; -1; 2 ^ 53 - 1; 2 ^ 53; 2 ^ 53 + 1; 2 ^ 53 + 2; - 2 ^ 53 - 1; 2 ^ 62; 2 ^ 63 - 1; - 2 ^ 63; - 2 ^ 63 + 1; 9007199254740993; 123456789012345678].
 Definition ir_reals : list Z :=   (* bit patterns *)
